@@ -1568,6 +1568,8 @@ MUTANTS = [
     Mutant('arccot-branch-strictness', MF, "    if np.real(val) < 0:", "    if np.real(val) <= 0:", 'D2'),
     Mutant('kronecker-inverted', MF, "    if x == y:\n        return 1\n    return 0", "    if x == y:\n        return 0\n    return 1", 'D2'),
     Mutant('real-keeps-0d-array', MF, "    return content_if_0d_array(np.real(z))", "    return np.real(z)", 'D2'),
+    Mutant('constants-by-dict-zip-misaligned', MF, "DEFAULT_VARIABLES = {\n    'i': complex(0, 1),\n    'j': complex(0, 1),\n    'e': np.e,\n    'pi': np.pi\n}",
+           "DEFAULT_VARIABLES = dict(zip(('i', 'j', 'pi', 'e'), (complex(0, 1), complex(0, 1), np.e, np.pi)))", 'D3'),
     Mutant('constant-e', MF, "    'e': np.e,", "    'e': 2.71,", 'D3'),
     Mutant('constant-pi', MF, "    'pi': np.pi\n", "    'pi': 3.14159\n", 'D3'),
     Mutant('constant-i', MF, "    'i': complex(0, 1),", "    'i': complex(1, 0),", 'D3'),
@@ -1637,5 +1639,9 @@ BENIGN = [
     Benign('shape-gate-not-any', SD, "                if all([error is None for error in errors]):", "                if not any(error is not None for error in errors):"),
     Benign('abs-through-vdot', MF, "        raise FunctionEvalError(msg)\n    return np.linalg.norm(obj)", "        raise FunctionEvalError(msg)\n    return np.sqrt(np.vdot(obj, obj)).real"),
     Benign('seterr-under-ignore-explicit', EXPR, "np.seterr(divide='call', over='call', invalid='call')", "np.seterr(divide='call', over='call', under='ignore', invalid='call')"),
+    Benign('multi-scalar-table-by-loop', MF, "MULTI_SCALAR_FUNCTIONS = {\n    'min': has_at_least_2_scalar_inputs('min')(min),\n    'max': has_at_least_2_scalar_inputs('max')(max)\n}",
+           "MULTI_SCALAR_FUNCTIONS = {}\nfor _name, _f in zip(('min', 'max'), (min, max)):\n    MULTI_SCALAR_FUNCTIONS[_name] = has_at_least_2_scalar_inputs(_name)(_f)"),
+    Benign('constants-by-dict-zip', MF, "DEFAULT_VARIABLES = {\n    'i': complex(0, 1),\n    'j': complex(0, 1),\n    'e': np.e,\n    'pi': np.pi\n}",
+           "DEFAULT_VARIABLES = dict(zip(('i', 'j', 'e', 'pi'), (complex(0, 1), complex(0, 1), np.e, np.pi)))"),
     Benign('kronecker-else', MF, "    if x == y:\n        return 1\n    return 0", "    if x != y:\n        return 0\n    else:\n        return 1"),
 ]
